@@ -195,14 +195,14 @@ pub fn def() -> PropertyDef {
 		rule: "CSR-expressible Specs (subject, SAN, KU, EKU, custom extensions; each alone, subsets, all) x 0..4 caller attributes (any OID order, duplicates) x every key algorithm -> harness RFC 2986 decoder -> reference model; refusal sweep: all 32 subsets of the five inexpressible fields x IsCa variants x empty/non-empty name constraints x two base Specs; round trip through rcgen's own parser inside its documented support. Non-trivial = at least one extension field or attribute set, or a refusal case.",
 		assumptions: vec!["the harness decoder", "round trip: names with distinct attribute OIDs, standard EKUs, no custom extensions (the parser's documented support)"],
 		subs: vec![
-			prop_sub("content", 12_000, 800_000, || csr_case(false), check_content),
+			prop_sub("content", 60_000, 800_000, || csr_case(false), check_content),
 			sweep_sub("refusal-sweep", refusal_sweep, check_refusal),
-			prop_sub("refusal-random", 3_000, 100_000, || {
+			prop_sub("refusal-random", 15_000, 100_000, || {
 				(any::<u8>(), csr_case(true), gen::is_ca_set(), any::<bool>())
 					.prop_map(|(mask, base, is_ca, empty_nc)| RefusalCase { mask, base, is_ca, empty_nc })
 					.boxed()
 			}, check_refusal),
-			prop_sub("roundtrip", 6_000, 300_000, roundtrip_case, check_roundtrip),
+			prop_sub("roundtrip", 30_000, 300_000, roundtrip_case, check_roundtrip),
 		],
 	}
 }
